@@ -24,6 +24,7 @@ import Tahoe.Generated.Mutpublish
     | the boundary merge inside the updater (old prefix/suffix of the boundary segments, publisher's segment lengths; agreement of `_do_update_update` and `setup_encoding_parameters` on start/end segments) | `transforming_read_correct`, `updater_and_publisher_agree` |
     | quantifier "every server response ordering" (schedules) | correspondence only: the model abstracts publish/servermap networking ("publish succeeded ⇒ shares hold the version", C47/C11); the harness runs every history under a seeded random/fifo/lifo delivery order |
     | hash-tree reshaping at power-of-two segment counts, FEC, AES, share layout | correspondence only (reads on the grid validate block/share hash trees and decode real shares); the model keeps per-segment plaintext and the decoder's padding only |
+    | which of the two fetched boundary segments is `_start` and which is `_end` (`ServermapUpdater._got_results` / `_got_update_results_one_share` → `update_data` → `_decode_and_decrypt_segments`) | the model's `mdmfUpdate` hands `decodeBlocks … start_segment` / `… end_segment` to `TU.init` in that order (arithmetic of the pair: `updater_and_publisher_agree`); that the code pairs them the same way is tied by correspondence only: fixed corpus of 22/35/33-segment MDMF files with (start_segment, end_segment) ∈ {7,8}, {5,8}, {1,8}, {6,9}, {15,16}, {8,15}, {16,17}, {0,20}, {3,4} (writes starting and ending off a boundary before EOF) plus a random many-segment family |
     | operations through a reused `MutableFileVersion` object (`mv = get_best_mutable_version(); mv.update(..); mv.update(..)`, also mixed with `mv.overwrite/modify/read`) | modelled as: a version object is only a handle to the node; every operation of a history (`Op`, `step`, `run`) applies to the node's **current** best version, which is what the code does since 6586d18 (`_update` re-pins `self._version` to the version the previous publish through the object recorded; overwrite/modify always use the object's updated servermap). So `history_refines_bytes` / `history_reads_refine` are the claim for reused objects too; the handle itself (its cached servermap) is not in the model. Tie: histories with `pin`/`held` ops are run on the real code and map to the same driver tokens as operations through fresh objects. Monitor + correspondence only: reads *through* the reused object (a pinned version: may show any content since the pin, or refuse with KeyError), and an object overtaken by a change made through another object (the code refuses with UncoordinatedWriteError / IndexError / AssertionError depending on its cached servermap; monitored, not compared) |
     | stale `node.get_size()` (the defect repaired by the fix diff) | monitor + correspondence (the model has no node-level cache: it takes the length from the version, as the repaired code does) | -/
 namespace Tahoe.C09
